@@ -285,11 +285,13 @@ def print_assumptions(ctx, pid):
     """Print Assumptions for every theorem of Properties/<pid>.v, evaluated now against the built .vo"""
     pf = os.path.join(COQ, "Properties", pid + ".v")
     thms = theorems_of(pf)
-    body = "From TP Require Import Properties.%s.\n" % pid
+    # markers are printed with Check so that they travel on the same channel as the answers (idtac goes to another stream, and
+    # the interleaving of two pipes is not reliable)
+    body = "From Coq Require Import String.\nFrom TP Require Import Properties.%s.\n" % pid
     for t in thms:
-        body += 'Goal True. idtac "@@THM %s". exact I. Qed.\nPrint Assumptions %s.\n' % (t, t)
+        body += 'Check ("@@THM %s")%%string.\nPrint Assumptions %s.\n' % (t, t)
     for t in thms:
-        body += 'Goal True. idtac "@@DEP %s". exact I. Qed.\nPrint All Dependencies %s.\n' % (t, t)
+        body += 'Check ("@@DEP %s")%%string.\nPrint All Dependencies %s.\n' % (t, t)
     rc, o = coq_eval(ctx, "assm_" + pid, body, timeout=300)
     res = {}
     if rc != 0:
@@ -298,8 +300,8 @@ def print_assumptions(ctx, pid):
     deps = {}
     dep = None
     for line in o.split("\n"):
-        m = re.match(r"@@THM (\S+)", line)
-        d = re.match(r"@@DEP (\S+)", line)
+        m = re.search(r"@@THM ([A-Za-z0-9_']+)", line)
+        d = re.search(r"@@DEP ([A-Za-z0-9_']+)", line)
         if m:
             cur, dep = m.group(1), None
             res[cur] = []
@@ -308,7 +310,7 @@ def print_assumptions(ctx, pid):
             deps[dep] = set()
         elif dep is not None:
             deps[dep].update(re.findall(r"\bExtracted\.([A-Za-z0-9_']+)", line))
-        elif cur is not None and line.strip():
+        elif cur is not None and line.strip() and line.strip() != ": string":
             res[cur].append(line.strip())
     ctx.extracted_deps = deps
     out = {}
@@ -411,6 +413,8 @@ def write_evidence(ctx, coverage, assumptions, violations, level="proof"):
     cov.setdefault("trusted_base", TRUSTED_BASE)
     if getattr(ctx, "extracted_used", None) is not None:
         cov.setdefault("regenerated_definitions_the_theorems_depend_on", ctx.extracted_used)
+    if getattr(ctx, "coqchk", None) is not None:
+        cov.setdefault("coqchk", ctx.coqchk)
     ev = {
         "property_id": ctx.pid,
         "tier": ctx.tier,
@@ -458,6 +462,18 @@ def proof_step(ctx, verdict, pid, extra_targets=()):
         return res
     res["assumptions"] = assm
     res["discharged"] = len([t for t in thms if t in assm])
+    if ctx.tier == "thorough":
+        # independent re-check of the compiled cone by coqchk, which also lists the axioms the loaded libraries rely on
+        t0 = time.time()
+        rc, o = sh(["coqchk", "-silent", "-o", "-Q", COQ, "TP", "TP.Properties.%s" % pid], cwd=COQ, timeout=3600)
+        tail = o[o.rfind("CONTEXT SUMMARY"):] if "CONTEXT SUMMARY" in o else o[-1500:]
+        ctx.coqchk = {"exit": rc, "seconds": round(time.time() - t0, 1), "summary": " ".join(tail.split())[:1500]}
+        ctx.log("coqchk TP.Properties.%s: rc=%d in %.0fs" % (pid, rc, time.time() - t0))
+        if rc != 0:
+            res["build_ok"] = False
+            res["broken"] = ["coqchk rejects the compiled cone of Properties/%s.vo" % pid]
+            res["build_tail"] = o[-2000:]
+            return res
     # the tie to the source: every regenerated definition a theorem depends on must have been located in the working tree
     meta = getattr(ctx, "extract_meta", {})
     deps = getattr(ctx, "extracted_deps", {})
